@@ -10,6 +10,7 @@ import (
 	"strings"
 	"time"
 
+	"github.com/tidwall/gjson"
 	tmbytes "github.com/tendermint/tendermint/libs/bytes"
 	"github.com/tendermint/tendermint/libs/log"
 	tmproto "github.com/tendermint/tendermint/proto/tendermint/types"
@@ -139,6 +140,61 @@ type RigConfig struct {
 	ResponseOnlyModules    []string // modules that registered a response callback but no state callback
 	CallbackModules        []string
 	ModuleServices         []ModuleSvcSpec
+	FX                     *FXSpec // host chain with a token module (main units, foreign tokens) and an exchange-rate service
+}
+
+// FXSpec describes the host chain of the foreign-denomination scenarios: a token keeper that knows the base token in
+// a main unit ("kilo" = 10^3 stake) and a foreign token ("usd" = 10^2 cent), and the exchange-rate module service
+// (module "oracle") that GetExchangedPrice asks. The rate is a function of the pair and the block height only, so
+// it is part of no state; at the heights listed in FailAt the service answers with an error code.
+type FXSpec struct {
+	Rates  map[string][]string // pair "cent-stake" -> rates, indexed by height modulo the length
+	FailAt []int64
+}
+
+func (f *FXSpec) Rate(pair string, h int64) (string, bool) {
+	if f == nil {
+		return "", false
+	}
+	for _, x := range f.FailAt {
+		if x == h {
+			return "", false
+		}
+	}
+	rs := f.Rates[pair]
+	if len(rs) == 0 {
+		return "", false
+	}
+	return rs[int(h%int64(len(rs)))], true
+}
+
+// fxTokenKeeper plays the host chain's token module.
+type fxTokenKeeper struct{}
+
+func (fxTokenKeeper) GetToken(ctx sdk.Context, d string) (servicetypes.TokenI, error) {
+	switch d {
+	case "stake", "kilo":
+		return servicetypes.MockToken{Symbol: "kilo", MinUnit: "stake", Scale: 3}, nil
+	case "cent", "usd":
+		return servicetypes.MockToken{Symbol: "usd", MinUnit: "cent", Scale: 2}, nil
+	}
+	return nil, fmt.Errorf("token %s does not exist", d)
+}
+
+// fxService is the exchange-rate module service of the host chain.
+func fxService(f *FXSpec) *servicetypes.ModuleService {
+	return &servicetypes.ModuleService{
+		ServiceName: servicetypes.OraclePriceServiceName,
+		Provider:    servicetypes.OraclePriceServiceProvider,
+		ReuquestService: func(ctx sdk.Context, input string) (string, string) {
+			pair := gjson.Get(input, "body.pair").String()
+			rate, ok := f.Rate(pair, ctx.BlockHeight())
+			if !ok {
+				return `{"code":500,"message":"no rate for ` + pair + `"}`, ""
+			}
+			return `{"code":200,"message":""}`, `{"header":{},"body":{"rate":"` + rate + `"}}`
+		},
+	}
 }
 
 // Rig is the real keepers wired as in app/app.go minus everything the module does not touch.
@@ -192,7 +248,16 @@ func NewRig(cfg RigConfig) *Rig {
 
 	r.ak = authkeeper.NewAccountKeeper(appCodec, r.keys[stAuth], sub(authtypes.ModuleName), authtypes.ProtoBaseAccount, maccPerms)
 	r.bk = bankkeeper.NewBaseKeeper(appCodec, r.keys[stBank], r.ak, sub(banktypes.ModuleName), blocked)
-	r.sk = servicekeeper.NewKeeper(appCodec, r.keys[stService], r.ak, r.bk, servicekeeper.MockTokenKeeper{}, sub(servicetypes.ModuleName), authtypes.FeeCollectorName)
+	var tk servicetypes.TokenKeeper = servicekeeper.MockTokenKeeper{}
+	if cfg.FX != nil {
+		tk = fxTokenKeeper{}
+	}
+	r.sk = servicekeeper.NewKeeper(appCodec, r.keys[stService], r.ak, r.bk, tk, sub(servicetypes.ModuleName), authtypes.FeeCollectorName)
+	if cfg.FX != nil {
+		if err := r.sk.RegisterModuleService(servicetypes.RegisterModuleName, fxService(cfg.FX)); err != nil {
+			panic(err)
+		}
+	}
 
 	for _, m := range cfg.CallbackModules {
 		mod := m
